@@ -231,7 +231,8 @@ def run(tier):
     stats["histories_exported"] = len(hs)
     stats["histories_replayed"] = len(chosen)
     c.set("replay", stats)
-    if (stats.get("vcache_hits_A", 0) < 1 or stats.get("vcache_hits_C", 0) < 1 or stats["rejected_blocks"] < 1
+    # a vacuity alarm never hides a violation that was found
+    if not c.violations and (stats.get("vcache_hits_A", 0) < 1 or stats.get("vcache_hits_C", 0) < 1 or stats["rejected_blocks"] < 1
             or stats["immature_on_hit"] < 1 or stats["cellbase_maturity_rechecked_with_cached_tx"] < 1
             or stats.get("vcache_hits_B", 0) != 0):
         raise V.ToolError("vacuous replay: %s" % stats)
